@@ -10,8 +10,11 @@ def run(tier, seed, jobs):
         configs = [dict(eager=False, salt=1, env_budget=1, cuts="sparse", horizon=2000000)]
         cap = 250
     else:
-        configs = [dict(eager=False, salt=1, env_budget=2, cuts="sparse", horizon=2000000)]
-        cap = 300
+        # (a second deviation per execution - env_budget=2 - makes single executions of the
+        # 16-70 KB scenarios so long that the tier did not finish within 40 minutes; the thorough
+        # tier explores four times as many executions per scenario instead)
+        configs = [dict(eager=False, salt=1, env_budget=1, cuts="sparse", horizon=2000000)]
+        cap = 1000
     cov, viol, harness = run_family(FAMILY, tier, configs, jobs, max_execs=cap, seed=seed)
     cov["max_deviations"] = configs[0]["env_budget"]
     cov["cut_points"] = configs[0]["cuts"]
